@@ -1,3 +1,4 @@
+//@ requires base errors iter
 // ---- std::path shim used by the Memfs (L4) units: a path is seen through
 //   comps()     : its component sequence (what Path::components() yields)
 //   abs_clean() : "absolute and in clean normal form" = RootDir followed by Normal names only
